@@ -89,6 +89,9 @@ async def open_unix_server_transport(spec: str) -> Transport:
             peer_name = transport.get_extra_info('peer_name')
             logger.debug('connection from %s', peer_name)
             self.packet_sink.transport = transport
+            # Start framing the new client's stream from its first byte, wherever
+            # the previous client's stream was cut off.
+            self.packet_source.parser.reset()
 
         # Called when the client is disconnected
         def connection_lost(self, error):
